@@ -427,6 +427,14 @@ func (c *Gen) Frames(n int) ([][]byte, []string) {
 		fs = append(fs, f)
 		cl = append(cl, k)
 	}
+	if c.w.Filter == 3 && n >= 3 {
+		// two stations answering for ONE address (address conflict, gratuitous ARP + reply, proxy ARP): each of
+		// the frames is a reply of its own, with its own sender MAC
+		spa := c.srcIn()
+		fs[0], cl[0] = c.buildARP(spa, 6, 4, true), "valid"
+		fs[1], cl[1] = c.buildARP(spa, 6, 4, c.g.R.Bool()), "valid+same-ip-other-mac"
+		fs[n-1], cl[n-1] = c.buildARP(spa, 6, 4, true), "valid+same-ip-other-mac"
+	}
 	return fs, cl
 }
 
